@@ -8,6 +8,7 @@ Both the regular build and the DISABLE_MCOUNT_FILTER ("fast") build.
 Core-only imports (linked into uvmodel).
 -/
 import Uft.Base
+import Uft.Gen.Consts
 namespace Uft.Mcount
 
 /-- a decoded trace record (payload-free part) -/
@@ -39,8 +40,8 @@ def Trigger.changesState (t : Trigger) : Bool :=
   t.filter.isSome || t.depth.isSome || t.time.isSome || t.size.isSome
 
 structure Cfg where
-  maxStack : Nat := 1024       -- mcount_rstack_max
-  depthOpt : Nat := 0xffff     -- mcount_depth (MCOUNT_DEFAULT_DEPTH)
+  maxStack : Nat := Uft.Gen.Consts.OPT_RSTACK_DEFAULT       -- mcount_rstack_max
+  depthOpt : Nat := Uft.Gen.Consts.OPT_DEPTH_DEFAULT     -- mcount_depth (MCOUNT_DEFAULT_DEPTH)
   threshold : Nat := 0         -- mcount_threshold
   optIn : Bool := false        -- mcount_triggers->filter_count > 0
   locIn : Bool := false        -- mcount_triggers->loc_count > 0
@@ -52,8 +53,9 @@ structure Cfg where
   trig : Nat → Trigger := fun _ => {}
   fsize : Nat → Nat := fun _ => 16
 
-def noMaxDepth : Nat := 0xffff
-def noTime : Nat := 0xffffffffffffffff
+/-- FILTER_NO_MAX_DEPTH, FILTER_NO_TIME: regenerated from libmcount/internal.h on every run -/
+def noMaxDepth : Nat := Uft.Gen.Consts.FILTER_NO_MAX_DEPTH
+def noTime : Nat := Uft.Gen.Consts.FILTER_NO_TIME
 
 structure Frame where
   addr : Nat
